@@ -20,7 +20,7 @@ ASSUMPTIONS = ["only name, type, size, nullable, default and column count/order 
 TYPES = [("int", "int", None), ("varchar(20)", "varchar", 20), ("decimal(10,2)", "decimal", [10, 2]), ("decimal(10, 2)", "decimal", [10, 2]),
          ("double precision", "double precision", None), ("character varying(20)", "character varying", 20), ("timestamp", "timestamp", None),
          ("numeric(5)", "numeric", 5)]
-DEFAULTS = ["0", "7", "1234", "12345678901234567890", "'a'", "''", "'A b C'", "NULL", "TRUE", "now()", "CURRENT_TIMESTAMP", "1.5", "-1"]
+DEFAULTS = ["0", "7", "1234", "12345678901234567890", "'a'", "''", "'A b C'", "NULL", "TRUE", "now()", "CURRENT_TIMESTAMP", "1.5", "-1", "0.50", "10.25", "'0'"]
 OPTS = ["NN", "NULL", "DEF", "PK", "UQ", "REF"]
 CONTRA = [{"NN", "NULL"}, {"NULL", "PK"}]
 REFS = ["REFERENCES o(x)", "REFERENCES o (x)", "REFERENCES s9.o(x)"]
@@ -76,7 +76,7 @@ def gen_cases(tier):
                 cases.append({"fam": "A", "opts": list(sel), "type": ti, "default": 1, "ref": 0, "pos": 1})
             if "DEF" in sel and k <= 2:
                 for di in range(len(DEFAULTS)):
-                    for ti in (0, 1, 4):
+                    for ti in (range(len(TYPES)) if k == 1 else (0, 1, 4)):
                         cases.append({"fam": "A", "opts": list(sel), "type": ti, "default": di, "ref": 0, "pos": 1})
             if "DEF" in sel and k == 3:
                 for di in (4, 6, 7, 9, 12):
